@@ -8,6 +8,7 @@ loops are evaluated for one generic iteration.  There are no path conditions and
 solver: this is value numbering with a strong normaliser.
 """
 import ast
+import re
 from fractions import Fraction
 
 from .model import FunctionInfo, ClassInfo, AnalysisError, norm_text
@@ -175,7 +176,8 @@ UFUNCS = {'numpy.sin': 'sin', 'numpy.cos': 'cos', 'numpy.tan': 'tan',
           'math.sin': 'sin', 'math.cos': 'cos', 'math.tan': 'tan', 'math.sqrt': 'sqrt',
           'math.radians': 'deg2rad', 'math.degrees': 'rad2deg'}
 IDENT = {'numpy.asarray', 'numpy.ascontiguousarray', 'numpy.atleast_1d', 'numpy.array',
-         'numpy.asanyarray', 'builtins.float'}
+         'numpy.asanyarray', 'builtins.float', 'numpy.require', 'numpy.asarray_chkfinite',
+         'numpy.asfarray'}
 
 
 class SymEval:
@@ -1259,6 +1261,25 @@ class SymEval:
         return shape, pairs, arr.sample
 
     def index(self, base, idx, node=None):
+        if isinstance(base, Bound) and isinstance(base.obj, Rec) and base.fn == 'loc' and \
+                base.obj.kind == 'series' and (isinstance(idx, str) or (
+                    isinstance(idx, (list, tuple)) and idx and
+                    all(isinstance(x, str) for x in idx))):
+            # label selection on a row: series.loc[labels] is series[labels]
+            return self.index(base.obj, list(idx) if isinstance(idx, tuple) else idx, node)
+        if isinstance(base, SArray) and base.sample and self.stacked and \
+                not getattr(self, '_in_pick', False):
+            first = idx[0] if isinstance(idx, tuple) and idx else idx
+            if isinstance(first, int) and not isinstance(first, bool):
+                # stacked form: a constant index on the sample axis is ONE PARTICULAR sample (the
+                # first, the last), not the generic one the entries stand for: its values are the
+                # same expressions over that sample's own inputs
+                self._in_pick = True
+                try:
+                    picked = self.index(base, idx, node)
+                finally:
+                    self._in_pick = False
+                return self._particular_sample(picked, first)
         if isinstance(base, SArray):
             z = self._zipped(base, idx)
             if z is not None:
@@ -1899,6 +1920,12 @@ class SymEval:
             return self.isinstance_(args[0], node.args[1])
         if q == 'builtins.abs':
             return Opaque('abs', args[0])
+        if q in ('builtins.min', 'builtins.max', 'numpy.maximum', 'numpy.minimum', 'numpy.fmax',
+                 'numpy.fmin') and len(args) == 2 and not kwargs:
+            v = self._bound_by_const(q, args)
+            if v is not None:
+                return v
+            return Opaque(q, *args)
         if q in ('builtins.min', 'builtins.max'):
             return Opaque(q, *args)
         if q == 'builtins.all' or q == 'builtins.any':
@@ -1911,6 +1938,123 @@ class SymEval:
         if q == 'builtins.bool':
             return self.truth(args[0])
         return Opaque('extcall', q, args, kwargs)
+
+    def _particular_sample(self, v, k):
+        """the value v (of the generic sample) re-expressed for sample number k: every atom that
+        is not a numeric constant of the package is renamed `<atom>@row<k>`"""
+        A = self.A
+
+        def one(x):
+            if not isinstance(x, Rat):
+                return x
+            mp = {}
+            for a in A.atoms_of(x):
+                for b in [a] + list(A._nested_atoms(a)):
+                    if b in getattr(A, 'numeric', {}) or '@row' in b:
+                        continue
+                    if b in A.sin_arg or b in A.cos_arg or b in A.sqrt_of or \
+                            b in getattr(A, 'inv_of', {}) or b in getattr(A, 'func_arg', {}) or \
+                            b.startswith('inv('):
+                        continue          # structured atoms are rebuilt from their arguments
+                    mp[b] = A.sym('%s@row%d' % (b, k))
+            return A.subst(x, mp) if mp else x
+        if isinstance(v, SArray):
+            out = SArray(v.shape, {}, v.default, v.sample)
+            for i, x in v.entries.items():
+                out.entries[i] = one(x)
+            return out
+        return one(v)
+
+    def _domain_of(self, at):
+        """documented domain of a leaf atom: a state component by name, or the latitude /
+        longitude element of a position row (`lla[<row>,0]`, `lla[<row>,1]`)"""
+        if at in DOMAINS:
+            return DOMAINS[at]
+        m = re.match(r'^(\w*lla\w*)\[[^\],]*,\s*([01])\](@\d+)?$', at)
+        if m:
+            return DOMAINS['lat' if m.group(2) == '0' else 'lon']
+        return None
+
+    def _bound_by_const(self, q, args):
+        """max(x, c) / min(x, c) with a numeric bound c.  A guard that never engages on the
+        documented domain of x would be the identity, but proving that needs interval reasoning
+        this evaluator does not have; what it CAN do soundly is exhibit a point of the documented
+        domain where the bound engages (x < c for max, x > c for min): then the call is a
+        different function of x inside the domain, and it is carried as an uninterpreted
+        function atom so that the rules see the difference.  No witness -> None (the caller
+        keeps the opaque value and the analysis ends without a verdict)."""
+        A = self.A
+        want_max = q.endswith(('max', 'maximum', 'fmax'))
+
+        def num(v_):
+            if isinstance(v_, bool):
+                return None
+            if isinstance(v_, (int, float)):
+                return float(v_)
+            if isinstance(v_, Rat) and A.is_const(v_):
+                return float(A.const_of(v_))
+            return None
+        for x, c in ((args[0], args[1]), (args[1], args[0])):
+            cv = num(c)
+            if cv is None or not isinstance(x, Rat) or A.is_const(x):
+                continue
+            xe = x
+            if self.names_as_atoms:
+                try:
+                    xe = self.expand(x)
+                except Unsupported:
+                    xe = x
+
+            def witness(x=xe):
+                import itertools
+                leaves = set()
+
+                def probe(at):
+                    leaves.add(at)
+                    return 0.3
+                try:
+                    A.numeval(x, probe)
+                except (ValueError, OverflowError, ZeroDivisionError):
+                    pass
+                doms = {}
+                fixed = {}
+                import math as _m
+                for at in leaves:
+                    if at == A.D2R:
+                        fixed[at] = _m.pi / 180
+                        continue
+                    if at in getattr(A, 'numeric', {}):
+                        fixed[at] = float(A.numeric[at])
+                        continue
+                    d = self._domain_of(at)
+                    if d is None:
+                        return None
+                    doms[at] = d
+                if not doms or len(doms) > 2:
+                    return None
+                names = sorted(doms)
+                axes = []
+                for at in names:
+                    lo, hi = doms[at]
+                    # interior points only: the ends of a documented domain may be singular
+                    axes.append([lo + (hi - lo) * k / 40.0 for k in range(1, 40)] +
+                                [lo + (hi - lo) * f_ for f_ in (0.005, 0.995)])
+                for pt in itertools.product(*axes):
+                    env_ = dict(zip(names, pt))
+                    env_.update(fixed)
+                    try:
+                        val = A.numeval(x, lambda at: env_[at])[0]
+                    except (ValueError, OverflowError, ZeroDivisionError, KeyError):
+                        continue
+                    if (want_max and val < cv - 1e-9 * max(1.0, abs(cv))) or \
+                            (not want_max and val > cv + 1e-9 * max(1.0, abs(cv))):
+                        return env_
+                return None
+            w = witness()
+            if w is None:
+                return None
+            return A.func('max' if want_max else 'min', x, self.rat(c))
+        return None
 
     def isinstance_(self, v, tnode):
         names = []
